@@ -32,6 +32,7 @@ A == <<65>>  AB == <<65, 66>>  ASB == <<65, 32, 66>>
 
 GPos == { Ins("Td", <<N(3), N(0)>>), Ins("Td", <<N(0), N(-2)>>), Ins("TD", <<N(1), N(-3)>>),
           Ins("Tm", <<N(1), N(0), N(0), N(1), N(5), N(5)>>), Ins("Tm", <<N(2), N(0), N(0), N(2), N(0), N(0)>>),
+          Ins("Tm", <<N(1), N(0), N(1), N(1), N(0), N(0)>>),        \* a pure shear (synthetic italic): c # 0, b = 0
           <<Op("T*")>>, Ins("TL", <<N(4)>>), Ins("Tj", <<Str(AB)>>), Ins("'", <<Str(A)>>),
           Ins("Td", <<N(0), N(0)>>), Ins("TD", <<N(0), N(0)>>) }
 GSpace == { Ins("Tc", <<N(1)>>), Ins("Tc", <<N(3)>>), Ins("Tw", <<N(2)>>), Ins("Tz", <<N(200)>>), Ins("Tz", <<N(50)>>),
@@ -39,6 +40,7 @@ GSpace == { Ins("Tc", <<N(1)>>), Ins("Tc", <<N(3)>>), Ins("Tw", <<N(2)>>), Ins("
             Ins("TJ", <<Arr(<<N(-200), Str(A)>>)>>), Ins("\"", <<N(2), N(1), Str(AB)>>),
             Ins("Tf", <<Nm("F2"), N(10)>>) \o Ins("Tj", <<Str(<<0, 65, 0, 32>>)>>) \o Ins("Tf", <<Nm("F1"), N(10)>>) }
 GState == { <<Op("q")>>, <<Op("Q")>>, Ins("cm", <<N(2), N(0), N(0), N(2), N(1), N(1)>>), Ins("cm", <<N(0), N(1), N(-1), N(0), N(0), N(0)>>),
+            Ins("cm", <<N(1), N(1), N(0), N(1), N(0), N(0)>>),      \* a pure shear: b # 0, c = 0
             Ins("Do", <<Nm("Fm1")>>), Ins("Do", <<Nm("Fm2")>>), Ins("Do", <<Nm("Fm3")>>), Ins("Tj", <<Str(A)>>), Ins("rg", <<N(1), N(0), N(0)>>),
             Ins("Tc", <<N(1)>>), Ins("re", <<N(0), N(0), N(2), N(3)>>) \o <<Op("B")>> }
 GPath == { Ins("m", <<N(0), N(0)>>), Ins("l", <<N(5), N(0)>>), Ins("l", <<N(5), N(4)>>), Ins("l", <<N(0), N(4)>>), Ins("l", <<N(0), N(0)>>),
@@ -123,6 +125,13 @@ ZeroOps == { Ins("Tc", <<N(0)>>), Ins("Tw", <<N(0)>>), Ins("TL", <<N(0)>>), Ins(
              Ins("re", <<N(0), N(0), N(0), N(0)>>) \o <<Op("S")>>, Ins("Tz", <<N(100)>>) }
 InitZero == \E z \in ZeroOps : Start(ZeroPre \o z \o Probe, Ident)
 InitZero2 == \E z1 \in ZeroOps, z2 \in ZeroOps : Start(ZeroPre \o z1 \o <<Str(A), Op("Tj")>> \o z2 \o Probe, Ident)
+
+\* nesting deeper than the 28 levels ISO 32000-1 Annex C once listed as an implementation limit: 32 nested q, each level
+\* with its own line width and gray level, then Q by Q with a painted rectangle after each
+RECURSIVE DeepQ(_), Unwind(_)
+DeepQ(n) == IF n = 0 THEN <<>> ELSE <<Op("q"), N(n), Op("w"), N(n % 2), Op("G")>> \o DeepQ(n - 1)
+Unwind(n) == IF n = 0 THEN <<>> ELSE <<Op("Q")>> \o Ins("re", <<N(0), N(0), N(2), N(2)>>) \o <<Op("S")>> \o Unwind(n - 1)
+InitDeepQ == Start(PreText \o DeepQ(32) \o Unwind(33), Ident)
 
 MixPoolAll == GPos \cup GSpace \cup GState \cup GPath \cup GPathCtm \cup GColor \cup GPaint \cup GColorRes \cup GPass
 NoPool == {}
